@@ -352,7 +352,7 @@ impl Debugger {
             Command::StepOver => {
                 Self::check_halt(instr)?;
                 self.status = Status::StepOver {
-                    return_addr: state.pc() + 1,
+                    return_addr: state.pc().wrapping_add(1),
                 };
                 self.should_echo_pc = true;
             }
